@@ -12,7 +12,7 @@ import (
 // World `pipe` (C10): 1-3 senders, one closer, one receiver, cancellers, over stream.Pipe.
 
 func init() {
-	Register(&World{Name: "pipe", Props: []string{"C10"}, Concurrent: true, MaxSteps: 4000, Run: pipeWorld})
+	Register(&World{Name: "pipe", Episodes: true, Props: []string{"C10"}, Concurrent: true, MaxSteps: 4000, Run: pipeWorld})
 	ExpectedProbes["pipe"] = []string{"next-with-data-and-closed-both-ready", "send-parked-then-cancelled", "send-after-receiver-closed", "end-reported", "close-error-reported", "trysend-full"}
 }
 
